@@ -186,7 +186,7 @@ class BeaconCheck(verif.Check):
         rc, out = verif.build_harness(name)
         if rc != 0:
             return None, [], [dict(kind="correspondence", detail="harness %s does not build:\n%s" % (name, out[-2000:]))]
-        outdir = os.path.join(verif.RUN, name if verif.REPO == "/repo" else name + "_" + hashlib.sha1(verif.REPO.encode()).hexdigest()[:8])
+        outdir = os.path.join(verif.RUN, "%s%s-%d" % (name, "" if verif.REPO == "/repo" else "_" + hashlib.sha1(verif.REPO.encode()).hexdigest()[:8], os.getpid()))
         rc, out = verif.run_harness(name, outdir, seed, tier, timeout=1200)
         if rc != 0:
             return None, [], [dict(kind="correspondence", detail="harness %s failed (rc=%d):\n%s" % (name, rc, out[-2000:]))]
@@ -198,6 +198,8 @@ class BeaconCheck(verif.Check):
             for i, code in mism:
                 c = cases.get(i, {})
                 found.append(dict(index="%s:%d" % (name, i), code=code, case=c.get("case"), coq=c.get("coq"), kind=name + "/" + str(c.get("kind"))))
+        if not mism and not problems:
+            shutil.rmtree(outdir, ignore_errors=True)
         return summ, found, problems
 
     def correspondence(self, tier, seed, replay=None):
